@@ -10,7 +10,7 @@ def plan(ctx):
         unit = k * WB[be]
         subsets = [s for r in range(k, n + 1) for s in itertools.combinations(range(n), r)]
         if not thorough and n > 3:
-            subsets = [s for s in subsets if len(s) >= n - 1]
+            subsets = [s for s in subsets if len(s) == n] + [s for s in subsets if len(s) == n - 1][::2]
         for s in subsets:
             order = list(s)
             for r in range(1, len(s) + 1):
